@@ -437,7 +437,8 @@ def check_relations(case, ctx):
                                   ('background_rms', out[1][sel], exp_r[sel], True),
                                   ('background_mesh', out[2], exp_bm, False),
                                   ('background_rms_mesh', out[3], exp_rm, False)):
-            if not np.allclose(got, exp, rtol=1e-9, atol=1e-9 * scale):
+            if not np.allclose(got, exp, rtol=1e-9, atol=1e-9 * max(
+                    float(np.abs(exp).max()) if np.size(exp) else 0.0, 1e-300)):
                 worst = float(np.abs(got - exp).max())
                 raise Violation('equivariance',
                                 f'{name} under data {rel} '
@@ -456,7 +457,8 @@ def relation_cases(draw):
         case['mask_density'] = 0.2
     case['gseed'] = draw(st.integers(0, 10**6))
     case['const'] = draw(st.sampled_from([3.0, -17.5, 1024.0, 0.125]))
-    case['factor'] = draw(st.sampled_from([2.0, 0.5, 8.0, 0.03125]))
+    case['factor'] = draw(st.sampled_from([2.0, 0.5, 8.0, 0.03125, 2.0 ** -60,
+                                           2.0 ** 40]))
     if case['relation'] in ('shift', 'scale', 'constant'):
         case['special'] = [s for s in case['special']]
     return case
